@@ -858,6 +858,17 @@ func (vc *VC) bindAnchors(fi *FuncInfo, c *FuncContract) {
 			txt = "recv:" + nodeText(vc.prog.Fset, x.X)
 		case *ast.SendStmt:
 			txt = "send:" + nodeText(vc.prog.Fset, x.Chan)
+		case *ast.IncDecStmt:
+			// "inc:x" / "dec:x" anchors x++ / x-- on a plain variable
+			id, ok := x.X.(*ast.Ident)
+			if !ok {
+				return true
+			}
+			if x.Tok == token.INC {
+				txt = "inc:" + id.Name
+			} else {
+				txt = "dec:" + id.Name
+			}
 		case *ast.AssignStmt:
 			// "def:x" anchors the statement that defines local x (x := ...)
 			if x.Tok != token.DEFINE {
